@@ -3,7 +3,7 @@ from __future__ import annotations
 
 import json
 
-from .. import core, enc, universe
+from .. import core, enc, lean, universe
 from ..runner import Result
 
 ID = "C14"
@@ -14,16 +14,24 @@ LEVEL_TEXT = ("Theorems over the executable model (Props/C14.lean): `decode` and
               "routine starts with decode or load); `load` returns non-text inputs untouched. The modelled strload agrees with "
               "the real one on the JSON / plain-word fragment (correspondence); outside that fragment the direct oracle still "
               "runs: all five carriers plus a read-only view of a mutable buffer (oracle-only sixth carrier) equal-or-all-reject on the real library, JSON / literal text of a wire value equivalent "
-              "to the decoded value, load/strload equal to json.loads on JSON text and identity on non-JSON non-literal text.")
+              "to the decoded value, load/strload equal to json.loads on JSON text and identity on non-JSON non-literal text. "
+              "JSON round trip proved (Lemmas/JsonRT.lean): for every plain wire value w (plainWire: None/bool/64-bit int/str without "
+              "control characters other than \\n\\r\\t\\b\\f/list/dict with distinct str keys) the modelled strload reads back the model's "
+              "printer, strload?(renderJson w) = w, also with Python's default separators; hence load(text of w) = w for every carrier and "
+              "um T (text of w) = um T w for every collection / tuple / mapping / structured T and non-str w (um_json_text), and for "
+              "unions of them when w is a list or dict (um_json_text_union). The printer and its domain predicate are tied to "
+              "json.dumps(separators=(',',':'), ensure_ascii=False) / json.dumps(ensure_ascii=False) and to a Python re-implementation of "
+              "the predicate by a differential pass; the texts of the plain values go through the real strload/load.")
 LEVEL_NOTE = ("Trusted: Lean kernel, standard axioms; model tied by correspondence; orjson / ast.literal_eval are modelled on a "
               "fragment only (strings outside it are reported as unsupported by the model and judged by the oracle alone).")
 TECHNIQUE = "Lean 4 theorems (carrier independence by induction on the annotation) + correspondence of the strload fragment + five-carrier / text-equivalence oracle"
 DESIGN_REF = "DESIGN.md §5 C14"
-MODULES = ["TypelibModel.Props.C14", "TypelibModel.Props.Dispatch"]
+MODULES = ["TypelibModel.Props.C14", "TypelibModel.Props.Dispatch", "TypelibModel.Lemmas.JsonRT"]
 TABLES = True
 RULE = ("strings: wire forms of valid values rendered by json.dumps and repr, numeric/boolean/null look-alikes, malformed JSON, "
         "control characters, non-ASCII; each given in the five carriers to unmarshal(T, .) for T in U; non-trivial = string "
-        "of length > 1 or composite annotation")
+        "of length > 1 or composite annotation; JSON printer pass: random wire values of depth <= 3 over an alphabet of quotes, "
+        "backslashes, control characters, DEL, non-ASCII, JSON punctuation, 64-bit boundary integers, repeated / non-str keys")
 ASSUMPTIONS = ["bytes carriers hold the UTF-8 encoding of the string",
                "integers in JSON text stay within 64 bits (the default decoder, orjson, reads larger ones as floats; C02 states the same range)"]
 TRUSTED = ["harness encoders/generators", "hand-written model tied by correspondence"]
@@ -71,6 +79,117 @@ def lookalike_jobs():
     return jobs
 
 
+# ---- JSON printer of the model (Model/JsonText.lean) vs json.dumps; its domain predicate vs a re-implementation ----
+
+JSON_ALPHABET = ["a", "b", "z", '"', "\\", "/", "\n", "\r", "\t", "\b", "\f", "\x00", "\x01", "\x0b", "\x1f", "\x7f", " ", "\u00e9",
+                 "\u65e5", "\U0001f600", "\u2028", "{", "}", "[", "]", ":", ",", "0", "7", "-", ".", "e", "E", "u", "n", "t", "f", "'"]
+JSON_INTS = [0, 1, -1, 7, 10, -10, 42, 100, 12345678901234567890 % 2**63, 2**63 - 1, 2**63, -2**63, -2**63 - 1, 2**64 - 1, 2**64,
+             10**30, -10**30]
+
+
+def _ok_char(ch):
+    return ord(ch) >= 32 or ch in "\n\r\t\b\f"
+
+
+def py_plain_wire(w):
+    """Python re-implementation of `plainWire` (Model/JsonText.lean) on the harness encoding of values."""
+    if w is None or isinstance(w, bool):
+        return True
+    if isinstance(w, int):
+        return -2**63 <= w <= 2**64 - 1
+    if isinstance(w, str):
+        return all(_ok_char(c) for c in w)
+    if isinstance(w, list) and len(w) == 2 and w[0] == "l":
+        return all(py_plain_wire(x) for x in w[1])
+    if isinstance(w, list) and len(w) == 2 and w[0] == "d":
+        keys = [k for k, _ in w[1]]
+        return (all(isinstance(k, str) and all(_ok_char(c) for c in k) for k in keys) and len(set(keys)) == len(keys)
+                and all(py_plain_wire(v) for _, v in w[1]))
+    return False
+
+
+def wire_py(w):
+    """The Python object of a wire value in the printer's shape (None/bool/int/str/list/dict with distinct str keys), else
+    raises ValueError (floats, non-str keys and repeated keys have no counterpart / no agreed text)."""
+    if w is None or isinstance(w, (bool, int, str)):
+        return w
+    if isinstance(w, list) and len(w) == 2 and w[0] == "l":
+        return [wire_py(x) for x in w[1]]
+    if isinstance(w, list) and len(w) == 2 and w[0] == "d":
+        keys = [k for k, _ in w[1]]
+        if not all(isinstance(k, str) for k in keys) or len(set(keys)) != len(keys):
+            raise ValueError("keys")
+        return {k: wire_py(v) for k, v in w[1]}
+    raise ValueError("shape")
+
+
+def gen_wire(r, depth):
+    k = r.random()
+    if depth <= 0 or k < 0.4:
+        j = r.random()
+        if j < 0.12:
+            return None
+        if j < 0.24:
+            return r.random() < 0.5
+        if j < 0.5:
+            return r.choice(JSON_INTS) if r.random() < 0.6 else r.randrange(-10**6, 10**6)
+        if j < 0.97:
+            return "".join(r.choice(JSON_ALPHABET) for _ in range(r.choice([0, 1, 1, 2, 3, 5])))
+        return ["f", r.choice(["1.5", "0.0", "-2.25"])]
+    if k < 0.7:
+        return ["l", [gen_wire(r, depth - 1) for _ in range(r.choice([0, 1, 2, 3, 4]))]]
+    items = []
+    for _ in range(r.choice([0, 1, 2, 3])):
+        j = r.random()
+        if j < 0.04 and items:
+            key = items[0][0]                       # a repeated key: only the encoding can carry it
+        elif j < 0.07:
+            key = r.choice([1, None, True])         # a non-str key
+        else:
+            key = "".join(r.choice(JSON_ALPHABET) for _ in range(r.choice([0, 1, 1, 2, 3])))
+        items.append([key, gen_wire(r, depth - 1)])
+    return ["d", items]
+
+
+def json_render_pass(ctx, res, extra_wires):
+    """Model printer / domain predicate against json.dumps / the Python predicate; returns the JSON texts of the plain values
+    (for the strload pass on the real library)."""
+    n = ctx.n(400, 4000)
+    wires = [gen_wire(ctx.rng, 3) for _ in range(n)] + list(extra_wires)
+    outs = lean.drive([{"op": "json.render", "val": w} for w in wires])
+    texts = []
+    for w, m_ in zip(wires, outs):
+        if "bad" in m_:
+            raise RuntimeError(f"harness: json.render: {m_}")
+        case = {"json.render": w}
+        res.case(case, isinstance(w, list))
+        pp = py_plain_wire(w)
+        if m_["plain"] != pp:
+            res.count("json.render:DISAGREE")
+            res.disagreements.append({"what": "plainWire vs Python predicate", "input": {"val": w}, "real": pp, "model": m_["plain"]})
+            continue
+        try:
+            o = wire_py(w)
+        except ValueError:
+            res.count("json.render:predicate-only")
+            continue
+        t1 = json.dumps(o, separators=(",", ":"), ensure_ascii=False)
+        t2 = json.dumps(o, ensure_ascii=False)
+        if m_["text"] != t1 or m_["text_sp"] != t2:
+            res.count("json.render:DISAGREE")
+            res.disagreements.append({"what": "renderJson vs json.dumps", "input": {"val": w}, "real": [t1, t2],
+                                      "model": [m_["text"], m_["text_sp"]]})
+            continue
+        res.count("json.render:agree:" + ("plain" if pp else "outside-fragment"))
+        if pp:
+            # the theorem's instance, executed by the compiled model: strload(render w) = w
+            for k in ("strload", "strload_sp"):
+                if not ("ok" in m_[k] and enc.canon(m_[k]["ok"]) == enc.canon(w)):
+                    res.disagreements.append({"what": f"model {k}(renderJson w) != w", "input": {"val": w}, "real": {"ok": w}, "model": m_[k]})
+            texts.append(t1 if len(texts) % 2 == 0 else t2)
+    return texts
+
+
 def explore(ctx):
     res = Result()
     res.rule = RULE
@@ -78,6 +197,12 @@ def explore(ctx):
     n = ctx.n(150, 2500)
     jobs = core.gen_jobs(ctx, n, "c14", dict(max_depth=depth, unions="any"), make_ops(depth))
     jobs += lookalike_jobs()
+    # JSON printer pass; the texts of the plain values go through the real strload / load (and the modelled one) below
+    fixed = [["d", [["a", ["l", [1, None, True, -5]]], ["k\"\\\n\x7f\u00e9", "v"]]], ["l", []], ["d", []], "", ["l", [["l", [["l", []]]]]],
+             ["d", [["a", 1], ["a", 2]]], ["d", [[1, 1]]], 2**64, -2**63, "\x00", "\u2028\U0001f600"]
+    texts = json_render_pass(ctx, res, fixed)
+    cap = ctx.n(200, 2000)
+    jobs.append({"prog": {"classes": [], "aliases": {}}, "ops": [{"op": "strload", "s": t} for t in texts[:cap]]})
     real, model = core.run_jobs(jobs)
     # second pass: text of real wire forms
     jobs2 = []
@@ -89,6 +214,12 @@ def explore(ctx):
             if op["op"] == "rt" and "ok" in r_.get("mar", {}) and universe.is_plain_wire(r_["mar"]["ok"]) \
                     and container_like(op["ty"]) and not _has_big_int(r_["mar"]["ok"]):
                 ops2.append({"op": "textequiv", "ty": op["ty"], "val": r_["mar"]["ok"]})
+                if py_plain_wire(r_["mar"]["ok"]):
+                    # correspondence on the JSON text itself (Props/C14.lean um_json_text: the model gives the text and the
+                    # decoded value the same outcome; here the real routine and the model are compared on the text)
+                    o = wire_py(r_["mar"]["ok"])
+                    txt = json.dumps(o, separators=(",", ":"), ensure_ascii=False) if len(ops2) % 2 else json.dumps(o, ensure_ascii=False)
+                    ops2.append({"op": "um", "ty": op["ty"], "val": txt})
         jobs2.append({"prog": job["prog"], "ops": ops2})
     real2, model2 = core.run_jobs(jobs2)
     res.programs = len(jobs)
@@ -133,6 +264,11 @@ def explore(ctx):
             else:
                 res.count("oracle:load-ok")
     for job, op, r_, m_ in core.iter_results(jobs2, real2, model2):
+        if op["op"] == "um":
+            case = {"ann": enc.pyexpr(op["ty"], job["prog"]), "input": op["val"]}
+            res.case(case, True)
+            core.compare(res, "um-json-text", {"prog": job["prog"], "ty": op["ty"], "val": op["val"], **case}, r_, m_)
+            continue
         case = {"ann": enc.pyexpr(op["ty"], job["prog"]), "wire": op["val"]}
         res.case(case, True)
         inp = {"prog": job["prog"], "ty": op["ty"], "val": op["val"], **case}
